@@ -35,13 +35,52 @@ def modcache():
     rc, out = sh(['go', 'env', 'GOMODCACHE'], env=go_env())
     return out.strip() or '/root/go/pkg/mod'
 
-def write_overlay(extra_inpkg):
-    """overlay.json: harness files added INTO package netpoll / mux, instrumented mcache over the module cache."""
+INSTR_FILES = ['connection_lock.go', 'connection_onevent.go', 'connection_reactor.go', 'connection_impl.go',
+               'fd_operator.go', 'fd_operator_cache.go', 'net_netfd_conn.go', 'nocopy_linkbuffer.go']
+INSTR_DIR = os.path.join(WORK, 'instr')
+# per-harness build configuration: extra build tags, and whether the instrumented copies (tools/instrument) replace
+# the protocol files in the overlay
+HARNESS = {'sched': dict(tags='verif verifsched', instr=True)}
+
+def build_tool(name):
+    """(re)build tools/<name> into go/bin/<name> when its sources are newer (shared package tools/extract/syncops included)."""
+    exe = os.path.join(BIN, name)
+    srcs = [os.path.join(VERIF, 'tools', name, 'main.go'), os.path.join(VERIF, 'tools/extract/syncops/syncops.go')]
+    newest = max(os.path.getmtime(p) for p in srcs if os.path.exists(p))
+    if not os.path.exists(exe) or os.path.getmtime(exe) < newest:
+        os.makedirs(BIN, exist_ok=True)
+        rc, o = sh(['go', 'build', '-o', exe, '.'], cwd=os.path.join(VERIF, 'tools', name), env=go_env(), timeout=600)
+        if rc != 0:
+            return None, '%s build failed:\n%s' % (name, o)
+    return exe, ''
+
+def instrument(files=None):
+    """tools/instrument: regenerate work/instr/ (instrumented copies of the protocol files + zz_verif_hooks.go + sites.json)
+    from the repo's CURRENT source. Returns (ok, output)."""
+    exe, o = build_tool('instrument')
+    if exe is None:
+        return False, o
+    rc, o = sh([exe, '-repo', REPO, '-out', INSTR_DIR, '-files', ','.join(files or INSTR_FILES)], env=go_env(), timeout=300)
+    return rc == 0, o
+
+def instr_sites():
+    return json.load(open(os.path.join(INSTR_DIR, 'sites.json')))
+
+def write_overlay(extra_inpkg, replacements=None, instr=False):
+    """overlay.json: harness files added INTO package netpoll / mux, instrumented mcache over the module cache;
+    replacements: repo-relative path -> absolute file that replaces it (e.g. an instrumented copy);
+    with instr=True the instrumented copies in work/instr REPLACE the original protocol files."""
     rep = {}
     for src, dst in extra_inpkg.items():
         rep[os.path.join(REPO, dst)] = os.path.join(GO, src)
+    for rel, path in (replacements or {}).items():
+        rep[os.path.join(REPO, rel)] = path
+    if instr:
+        for f in sorted(os.listdir(INSTR_DIR)):
+            if f.endswith('.go'):
+                rep[os.path.join(REPO, f)] = os.path.join(INSTR_DIR, f)
     rep[os.path.join(modcache(), 'github.com/bytedance/gopkg@v0.1.1/lang/mcache/mcache.go')] = os.path.join(GO, 'pool/mcache.go')
-    path = os.path.join(WORK, 'overlay.json')
+    path = os.path.join(WORK, 'overlay-instr.json' if instr else 'overlay.json')
     json.dump({'Replace': rep}, open(path, 'w'), indent=1)
     return path
 
@@ -56,25 +95,43 @@ def inpkg_files():
                     m[d + '/' + f] = sub + 'zz_verif_' + f
     return m
 
-def build_harness(name, race=False, tags='verif'):
+def modfile_args():
+    """with VERIF_REPO set, build the harness module against that tree: `-modfile` with the replace directive redirected."""
+    if REPO == '/repo':
+        return []
+    mod = open(os.path.join(GO, 'go.mod')).read().replace('=> /repo', '=> ' + REPO)
+    path = os.path.join(WORK, 'go.alt.mod')
+    open(path, 'w').write(mod)
+    src = os.path.join(GO, 'go.sum')
+    if os.path.exists(src):
+        open(os.path.join(WORK, 'go.alt.sum'), 'w').write(open(src).read())
+    return ['-modfile', path]
+
+def build_harness(name, race=False, tags=None, replacements=None, instr=None):
     """(re)build go/cmd/<name> against /repo's current working tree with hooks on."""
+    cfg = HARNESS.get(name, {})
+    tags = tags or cfg.get('tags', 'verif')
+    instr = cfg.get('instr', False) if instr is None else instr
     with Lock('go'):
         os.makedirs(BIN, exist_ok=True)
         sum_src = os.path.join(REPO, 'go.sum')
         if os.path.exists(sum_src):
             open(os.path.join(GO, 'go.sum'), 'w').write(open(sum_src).read())
-        ov = write_overlay(inpkg_files())
+        if instr:
+            ok, o = instrument()
+            if not ok:
+                return None, 'tools/instrument failed (does the repo still compile?):\n' + o
+        ov = write_overlay(inpkg_files(), replacements, instr)
         out = os.path.join(BIN, name + ('-race' if race else ''))
         if os.path.exists(out):
             os.remove(out)
         cmd = ['go', 'build', '-tags', tags, '-overlay', ov, '-o', out]
-        if os.path.realpath(REPO) != '/repo':
-            # scratch worktree of netpoll (VERIF_REPO): same harness module, `replace` pointed at it
-            mod = open(os.path.join(GO, 'go.mod')).read().replace('=> /repo', '=> ' + os.path.realpath(REPO))
-            open(os.path.join(WORK, 'harness.mod'), 'w').write(mod)
-            if os.path.exists(os.path.join(GO, 'go.sum')):
-                open(os.path.join(WORK, 'harness.sum'), 'w').write(open(os.path.join(GO, 'go.sum')).read())
-            cmd.append('-modfile=' + os.path.join(WORK, 'harness.mod'))
+        if REPO != '/repo':
+            # VERIF_REPO: same harness module, but `replace netpoll => <scratch worktree>` (go/go.mod itself stays untouched)
+            mf = os.path.join(WORK, 'go.alt.mod')
+            open(mf, 'w').write(open(os.path.join(GO, 'go.mod')).read().replace('=> /repo', '=> ' + REPO))
+            open(os.path.join(WORK, 'go.alt.sum'), 'w').write(open(os.path.join(GO, 'go.sum')).read())
+            cmd.append('-modfile=' + mf)
         if race:
             cmd.append('-race')
             e = go_env(); e['CGO_ENABLED'] = '1'
@@ -84,16 +141,44 @@ def build_harness(name, race=False, tags='verif'):
         rc, o = sh(cmd, cwd=GO, env=e, timeout=600)
         return (out if rc == 0 else None), o
 
+def extract_exe():
+    """(path or None, message): go/bin/extract, rebuilt when missing or older than any tools/extract/*.go. Call under Lock('gen')."""
+    exe = os.path.join(BIN, 'extract')
+    d = os.path.join(VERIF, 'tools/extract')
+    srcs = [os.path.join(d, f) for f in os.listdir(d) if f.endswith('.go') or f in ('go.mod', 'go.sum')]
+    sd = os.path.join(d, 'syncops')
+    if os.path.isdir(sd):
+        srcs += [os.path.join(sd, f) for f in os.listdir(sd) if f.endswith('.go')]
+    newest = max(os.path.getmtime(f) for f in srcs)
+    if not os.path.exists(exe) or os.path.getmtime(exe) < newest:
+        os.makedirs(BIN, exist_ok=True)
+        rc, o = sh(['go', 'build', '-o', exe, '.'], cwd=d, env=go_env(), timeout=600)
+        if rc != 0:
+            return None, 'extract build failed:\n' + o
+    return exe, ''
+
+def instrument_shard():
+    """C17: instrumented copy of REPO/mux/shard_queue.go (schedule-point hooks at the sites of Gen/Shard.lean).
+    Returns (path or None, message); None when the source has a shape the instrumenter does not support."""
+    with Lock('gen'):
+        exe, msg = extract_exe()
+        if exe is None:
+            return None, msg
+        os.makedirs(WORK, exist_ok=True)
+        dst = os.path.join(WORK, 'shard_queue_instr.go')
+        if os.path.exists(dst):
+            os.remove(dst)
+        rc, o = sh([exe, '-repo', REPO, '-instr-shard', dst], env=go_env(), timeout=300)
+        if rc != 0 or not os.path.exists(dst):
+            return None, 'instr-shard failed (rc=%d):\n%s' % (rc, o)
+        return dst, o
+
 def regen():
     """T-gen: regenerate lean/Netpoll/Gen/*.lean and work/facts.json from /repo's working tree."""
     with Lock('gen'):
-        exe = os.path.join(BIN, 'extract')
-        src = os.path.join(VERIF, 'tools/extract/main.go')
-        if not os.path.exists(exe) or os.path.getmtime(exe) < os.path.getmtime(src):
-            os.makedirs(BIN, exist_ok=True)
-            rc, o = sh(['go', 'build', '-o', exe, '.'], cwd=os.path.join(VERIF, 'tools/extract'), env=go_env(), timeout=600)
-            if rc != 0:
-                return False, 'extract build failed:\n' + o
+        exe, msg = extract_exe()
+        if exe is None:
+            return False, msg
         gen = os.path.join(LEAN, 'Netpoll/Gen')
         tmp = os.path.join(WORK, 'gen.tmp'); os.makedirs(tmp, exist_ok=True)
         for f in os.listdir(tmp): os.remove(os.path.join(tmp, f))
